@@ -309,6 +309,20 @@ TS_PROLOG_EXPECT = {
     "__Str$toInt": "parseInt(v as unknown as string, 10)",
     "__Str$concat": "[1, a + b]",
 }
+# the Vec part of the TypeScript prelude: a Vec is a JS array.  run_vec_runtime models exactly these bodies.
+TS_VEC_EXPECT = {
+    "__Vec$empty": "[]",
+    "__Vec$withCapacity": "[]",
+    "__Vec$of": "[v]",
+    "__Vec$length": "t.length",
+    "__Vec$capacity": "t.length",
+    "__Vec$reserve": "0",
+    "__Vec$push": "{ t.push(v); return 0; }",
+    "__Vec$pop": "{ if (t.length === 0) { throw Error('pop from empty Vec'); } return t.pop(); }",
+    "__Vec$get": "{ if (i < 0 || i >= t.length) { throw Error('Vec index out of bounds'); } return t[i]; }",
+    "__Vec$set": "{ if (i < 0 || i >= t.length) { throw Error('Vec index out of bounds'); } t[i] = v; return 0; }",
+    "__Vec$eq": "{ if (a === b) return 1; if (a.length !== b.length) return 0; for (let i = 0; i < a.length; i++) { if (a[i] !== b[i]) return 0; } return 1; }",
+}
 
 
 def ts_prolog_bodies(ts_text):
@@ -525,6 +539,183 @@ def run_runtime(res, tier, sc, drv):
     details["runtime_wall_s"] = round(time.time() - t0, 1)
     return {"runtime_obligations": obligations, "runtime_discharged": discharged, "runtime": details,
             "runtime_functions": ["__Str$fromInt", "__Str$toInt", "__Str$concat", "__Str$eq"]}
+
+
+def run_vec_runtime(res, tier, sc, drv):
+    """C04, Vec part of the runtime library: the hand-written WAT helpers are executed by E-W on vectors of every
+    length <= 3 (two capacities each) whose elements, indices and stored values are symbolic, and compared with the
+    meaning of the TypeScript prelude (a Vec is a JS array).  `push` runs through the real `reserve` and array.copy."""
+    import os
+    import time
+    from vlib import wat, irsym
+    from vlib.irsym import Int, I31, Obj, World, BV
+    od = os.path.join(sc.root, "et", "c04rt")
+    if not os.path.exists(os.path.join(od, "all.wat")):
+        raise Inconclusive("runtime probe program was not compiled")
+    mod = wat.Module(open(os.path.join(od, "all.wat")).read())
+    bodies = ts_prolog_bodies(open(os.path.join(od, "all.ts")).read())
+    for fn, expect in TS_VEC_EXPECT.items():
+        if bodies.get(fn) != expect:
+            raise Inconclusive("the TypeScript prelude of %s changed (%r): the JS model of checks/c04.py no longer describes it" % (fn, bodies.get(fn)))
+    known = load_known("C04")
+    bounds = {"forks": 40, "steps": 20000, "paths": 400, "seconds": 60}
+    stats = {"obligations": 0, "discharged": 0, "cases": 0}
+    known_hit = {}
+
+    def mkvec(tag, n, cap):
+        elems = [I31(z3.BitVec("%s_e%d" % (tag, k), 32)) for k in range(n)]
+        side = [e.t == wat.sext31(e.t) for e in elems]
+        data = wat.Arr("_VecData", elems + [wat.NULL] * (cap - n), key=tag + "data")
+        return Obj("_Vec", [data, Int(BV(n))]), elems, side
+
+    def state_of(ex, path, vec):
+        """(length term, element list) of a vector after the call"""
+        heap = getattr(path, "heap", {}) or {}
+        fields = heap.get(("o", id(vec)), vec.fields)
+        data = fields[0]
+        parts = heap.get(("a", id(data))) or (data.elems, data.zarr, data.zlen)
+        return fields[1], parts[0]
+
+    def decide(assertions):
+        s_ = z3.Solver()
+        s_.set("timeout", 30000)
+        s_.add(*assertions)
+        r = s_.check()
+        smt.STATS["queries"] += 1
+        return r, (s_.model() if r == z3.sat else None)
+
+    def oblige(name, pc, wrong, what, extra=None):
+        stats["obligations"] += 1
+        r, m = decide(list(pc) + [wrong])
+        if r == z3.unsat:
+            stats["discharged"] += 1
+        elif r == z3.sat:
+            kn = [k for k in known if k.get("function") == name]
+            if kn:
+                known_hit[kn[0]["id"]] = kn[0]["short"]
+            else:
+                res.violation("Vec runtime: %s under WebAssembly differs from the TypeScript prelude: %s" % (name, what),
+                              {"property": "C04", "function": name, "what": what, "model": str(m)[:600], **(extra or {})})
+        else:
+            res.inconc("Vec runtime %s: solver unknown" % name)
+
+    def run(fname, args, pre):
+        world = World()
+        ex = wat.WExec(mod, world, bounds)
+        ex.inline_calls = ("__Vec$reserve",)
+        ex.deadline = time.time() + bounds["seconds"]
+        return ex, ex.run(fname, args, pre, None)
+
+    for n in range(4):
+        for cap in (n, n + 2):
+            stats["cases"] += 1
+            # ---- length / capacity
+            vec, elems, side = mkvec("a", n, cap)
+            ex, ps = run("__Vec$length", [vec], side)
+            for p_ in ps:
+                oblige("__Vec$length", p_.pc, z3.BoolVal(p_.outcome != "return") if p_.outcome != "return" else p_.value.t != BV(n), "length of a %d-element vector" % n)
+            vec, elems, side = mkvec("a", n, cap)
+            ex, ps = run("__Vec$capacity", [vec], side)
+            for p_ in ps:
+                oblige("__Vec$capacity", p_.pc, z3.BoolVal(True) if p_.outcome != "return" else p_.value.t != BV(n),
+                       "capacity() is %d under WebAssembly and %d (the length) under TypeScript" % (cap, n))
+            # ---- get(i), set(i, v): all indices
+            i = z3.BitVec("i", 32)
+            oob = z3.Or(i < 0, i >= BV(n))
+            vec, elems, side = mkvec("a", n, cap)
+            ex, ps = run("__Vec$get", [vec, Int(i)], side)
+            for p_ in ps:
+                if p_.outcome == "return":
+                    exp = BV(0)
+                    for k in range(n - 1, -1, -1):
+                        exp = z3.If(i == BV(k), elems[k].t, exp)
+                    got = p_.value.t if isinstance(p_.value, I31) else None
+                    oblige("__Vec$get", p_.pc, z3.Or(oob, (got != exp) if got is not None else z3.BoolVal(True)), "get(i) returns another element or succeeds out of bounds (n=%d)" % n)
+                else:
+                    oblige("__Vec$get", p_.pc, z3.Not(oob), "get(i) traps for an index inside the vector (n=%d)" % n)
+            v = I31(z3.BitVec("v", 32))
+            vec, elems, side = mkvec("a", n, cap)
+            ex, ps = run("__Vec$set", [vec, Int(i), v], side + [v.t == wat.sext31(v.t)])
+            for p_ in ps:
+                if p_.outcome == "return":
+                    ln, after = state_of(ex, p_, vec)
+                    wrong = [oob, ln.t != BV(n)]
+                    for k in range(n):
+                        exp = z3.If(i == BV(k), v.t, elems[k].t)
+                        wrong.append(after[k].t != exp if isinstance(after[k], I31) else z3.BoolVal(True))
+                    oblige("__Vec$set", p_.pc, z3.Or(*wrong), "set(i, v) stores elsewhere, changes the length or succeeds out of bounds (n=%d)" % n)
+                else:
+                    oblige("__Vec$set", p_.pc, z3.Not(oob), "set(i, v) traps for an index inside the vector (n=%d)" % n)
+            # ---- pop
+            vec, elems, side = mkvec("a", n, cap)
+            ex, ps = run("__Vec$pop", [vec], side)
+            for p_ in ps:
+                if p_.outcome == "return":
+                    ln, after = state_of(ex, p_, vec)
+                    wrong = [z3.BoolVal(n == 0), ln.t != BV(n - 1)]
+                    if n > 0:
+                        wrong.append(p_.value.t != elems[n - 1].t if isinstance(p_.value, I31) else z3.BoolVal(True))
+                        for k in range(n - 1):
+                            wrong.append(after[k].t != elems[k].t if isinstance(after[k], I31) else z3.BoolVal(True))
+                    oblige("__Vec$pop", p_.pc, z3.Or(*wrong), "pop() of a %d-element vector" % n)
+                else:
+                    oblige("__Vec$pop", p_.pc, z3.BoolVal(n != 0), "pop() traps on a non-empty vector (n=%d)" % n)
+            # ---- push (through the real reserve + array.copy)
+            vec, elems, side = mkvec("a", n, cap)
+            v = I31(z3.BitVec("v", 32))
+            ex, ps = run("__Vec$push", [vec, v], side + [v.t == wat.sext31(v.t)])
+            if not ps:
+                res.inconc("Vec runtime push: no path")
+            for p_ in ps:
+                if p_.outcome == "return":
+                    ln, after = state_of(ex, p_, vec)
+                    wrong = [ln.t != BV(n + 1)]
+                    if after is None or len(after) < n + 1:
+                        wrong.append(z3.BoolVal(True))
+                    else:
+                        for k in range(n):
+                            wrong.append(after[k].t != elems[k].t if isinstance(after[k], I31) else z3.BoolVal(True))
+                        wrong.append(after[n].t != v.t if isinstance(after[n], I31) else z3.BoolVal(True))
+                    oblige("__Vec$push", p_.pc, z3.Or(*wrong), "push(v) on a vector of %d elements and capacity %d" % (n, cap))
+                else:
+                    oblige("__Vec$push", p_.pc, z3.BoolVal(True), "push(v) does not return (%s: %s) for n=%d capacity=%d" % (p_.outcome, p_.why, n, cap))
+    # ---- eq on two distinct vectors of every pair of lengths
+    for na in range(4):
+        for nb in range(4):
+            stats["cases"] += 1
+            a, ea, sa = mkvec("a", na, na + (nb % 2))
+            b, eb, sb = mkvec("b", nb, nb + 1)
+            ex, ps = run("__Vec$eq", [a, b], sa + sb)
+            same = z3.BoolVal(na == nb)
+            if na == nb:
+                same = z3.And(*[x.t == y.t for x, y in zip(ea, eb)]) if na else z3.BoolVal(True)
+            for p_ in ps:
+                if p_.outcome == "return":
+                    oblige("__Vec$eq", p_.pc, (p_.value.t != BV(0)) != same, "eq of vectors of lengths %d and %d" % (na, nb))
+                else:
+                    oblige("__Vec$eq", p_.pc, z3.BoolVal(True), "eq of vectors of lengths %d and %d does not return (%s: %s)" % (na, nb, p_.outcome, p_.why))
+    a, ea, sa = mkvec("a", 2, 3)
+    ex, ps = run("__Vec$eq", [a, a], sa)
+    for p_ in ps:
+        oblige("__Vec$eq", p_.pc, z3.BoolVal(True) if p_.outcome != "return" else p_.value.t != BV(1), "eq of a vector with itself")
+    # ---- constructors
+    v = I31(z3.BitVec("v", 32))
+    ex, ps = run("__Vec$of", [I31(BV(0)), v], [v.t == wat.sext31(v.t)])
+    for p_ in ps:
+        ok = p_.outcome == "return" and isinstance(p_.value, Obj)
+        if ok:
+            ln, after = state_of(ex, p_, p_.value)
+            oblige("__Vec$of", p_.pc, z3.Or(ln.t != BV(1), after[0].t != v.t if after and isinstance(after[0], I31) else z3.BoolVal(True)), "Vec.of(v)")
+        else:
+            oblige("__Vec$of", p_.pc, z3.BoolVal(True), "Vec.of(v) does not return a vector")
+    for fname, args in (("__Vec$empty", [I31(BV(0))]), ("__Vec$withCapacity", [I31(BV(0)), Int(BV(5))])):
+        ex, ps = run(fname, args, [])
+        for p_ in ps:
+            ok = p_.outcome == "return" and isinstance(p_.value, Obj)
+            oblige(fname, p_.pc, z3.BoolVal(True) if not ok else state_of(ex, p_, p_.value)[0].t != BV(0), "%s is not the empty vector" % fname)
+    for kid, short in sorted(known_hit.items()):
+        res.known("%s %s" % (kid, short))
+    return {"vec_runtime": stats, "vec_runtime_functions": sorted(TS_VEC_EXPECT)}
 
 
 class _FakeState:
